@@ -142,7 +142,7 @@ def show_tree(t):
     return '(%s %s %s)' % (show_tree(t[1]), t[0], show_tree(t[2]))
 
 
-def context_program(body, k, pname='p', cname='c', continuation=False, prefix=False, suffix=0):
+def context_program(body, k, pname='p', cname='c', continuation=False, prefix=False, suffix=0, wrapped=False):
     """the adversarial context of DESIGN C05:
          p(V1..Vk[,P][,W[,W2]]) :- [m(P),] BODY [, m(W) [, o(W2)]].
          p(9,..,9).                         a later clause of the same predicate
@@ -164,6 +164,12 @@ def context_program(body, k, pname='p', cname='c', continuation=False, prefix=Fa
         else:
             body = (',', body, call(F('m', V('W'))))
     nine = [C(9)] * len(hv)
+    if wrapped and hv:
+        # the clause gets ONE argument S and starts with S = w(V1..Vn): the variables the goals bind are
+        # inside a structure that was put together BEFORE they are bound (outer first, inner later)
+        body = (',', call(F('=', V('S'), F('w', *hv))), body)
+        nine = [F('w', *nine)]
+        hv = [V('S')]
     head = F(pname, *hv) if hv else A(pname)
     head9 = F(pname, *nine) if hv else A(pname)
     chead = F(cname, *(hv + [V('Z')]))
